@@ -8,6 +8,8 @@ import Mathlib.Analysis.Matrix.Order
 import Mathlib.Data.Complex.Basic
 import Mathlib.Analysis.Complex.Order
 import Mathlib.Order.ConditionallyCompleteLattice.Basic
+import Mathlib.GroupTheory.Perm.Fin
+import Mathlib.Data.Fin.Tuple.Basic
 import NumqiModel.Boundary
 
 namespace Numqi.Boundary
@@ -250,6 +252,84 @@ theorem mixture_posSemidef {K : ℕ} (lam : Fin K → ℂ) (hlam : ∀ i, 0 ≤ 
   exact posSemidef_sum _ fun i _ => (prodProj_posSemidef (a i) (b i)).smul (hlam i)
 
 end sep
+
+/-! ### symmetric extensions: tracing out one copy -/
+
+section ext
+variable {dA dB : ℕ}
+
+/-- `σ` on `A ⊗ B^{⊗k}` is a symmetric `k`-extension of `ρ` (positive, invariant under permutations of the copies,
+reducing to `ρ` on `A` and the last copy) -/
+def IsSymExt (k : ℕ) (ρ : Matrix (Fin dA × Fin dB) (Fin dA × Fin dB) ℂ)
+    (σ : Matrix (Fin dA × (Fin (k + 1) → Fin dB)) (Fin dA × (Fin (k + 1) → Fin dB)) ℂ) : Prop :=
+  σ.PosSemidef ∧ (∀ π : Equiv.Perm (Fin (k + 1)), ∀ p q, σ (p.1, p.2 ∘ π) (q.1, q.2 ∘ π) = σ p q) ∧
+    ∀ p q, ρ p q = ∑ r : Fin k → Fin dB, σ (p.1, Fin.snoc r p.2) (q.1, Fin.snoc r q.2)
+
+/-- the partial trace over the first copy -/
+def traceFirst {k : ℕ} (σ : Matrix (Fin dA × (Fin (k + 2) → Fin dB)) (Fin dA × (Fin (k + 2) → Fin dB)) ℂ) :
+    Matrix (Fin dA × (Fin (k + 1) → Fin dB)) (Fin dA × (Fin (k + 1) → Fin dB)) ℂ :=
+  fun p q => ∑ x : Fin dB, σ (p.1, Fin.cons x p.2) (q.1, Fin.cons x q.2)
+
+theorem traceFirst_posSemidef {k : ℕ} (σ : Matrix (Fin dA × (Fin (k + 2) → Fin dB)) (Fin dA × (Fin (k + 2) → Fin dB)) ℂ)
+    (h : σ.PosSemidef) : (traceFirst σ).PosSemidef := by
+  have e : traceFirst σ = ∑ x : Fin dB,
+      σ.submatrix (fun p : Fin dA × (Fin (k + 1) → Fin dB) => (p.1, (Fin.cons x p.2 : Fin (k + 2) → Fin dB)))
+        (fun p : Fin dA × (Fin (k + 1) → Fin dB) => (p.1, (Fin.cons x p.2 : Fin (k + 2) → Fin dB))) := by
+    ext p q
+    simp only [traceFirst, Matrix.sum_apply, Matrix.submatrix_apply]
+  rw [e]
+  exact posSemidef_sum _ fun x _ => h.submatrix _
+
+/-- **a `(k+1)`-extension traced over one copy is a `k`-extension** -/
+theorem isSymExt_traceFirst {k : ℕ} (ρ : Matrix (Fin dA × Fin dB) (Fin dA × Fin dB) ℂ)
+    (σ : Matrix (Fin dA × (Fin (k + 2) → Fin dB)) (Fin dA × (Fin (k + 2) → Fin dB)) ℂ) (h : IsSymExt (k + 1) ρ σ) :
+    IsSymExt k ρ (traceFirst σ) := by
+  obtain ⟨hpsd, hsym, hred⟩ := h
+  refine ⟨traceFirst_posSemidef σ hpsd, ?_, ?_⟩
+  · intro π p q
+    simp only [traceFirst]
+    refine Finset.sum_congr rfl fun x _ => ?_
+    -- extend π to the (k+2) copies, fixing the first
+    have key : ∀ f : Fin (k + 1) → Fin dB,
+        (Fin.cons x (f ∘ π) : Fin (k + 2) → Fin dB) = (Fin.cons x f : Fin (k + 2) → Fin dB) ∘ (Equiv.Perm.decomposeFin.symm (0, π)) := by
+      intro f
+      funext i
+      refine Fin.cases ?_ (fun j => ?_) i
+      · simp [Equiv.Perm.decomposeFin_symm_apply_zero]
+      · simp [Equiv.Perm.decomposeFin_symm_apply_succ]
+    rw [key p.2, key q.2]
+    exact hsym (Equiv.Perm.decomposeFin.symm (0, π)) (p.1, Fin.cons x p.2) (q.1, Fin.cons x q.2)
+  · intro p q
+    rw [hred p q]
+    simp only [traceFirst]
+    rw [Finset.sum_comm]
+    rw [← (Fin.consEquiv (fun _ : Fin (k + 1) => Fin dB)).sum_comp, Fintype.sum_prod_type]
+    refine Finset.sum_congr rfl fun x _ => Finset.sum_congr rfl fun r _ => ?_
+    show σ (p.1, Fin.snoc (Fin.cons x r) p.2) (q.1, Fin.snoc (Fin.cons x r) q.2) = σ (p.1, Fin.cons x (Fin.snoc r p.2)) (q.1, Fin.cons x (Fin.snoc r q.2))
+    rw [Fin.cons_snoc_eq_snoc_cons, Fin.cons_snoc_eq_snoc_cons]
+
+/-- the reduction of an operator on `A ⊗ B^{⊗(k+1)}` to `A` and the last copy -/
+def reduceLast {k : ℕ} (σ : Matrix (Fin dA × (Fin (k + 1) → Fin dB)) (Fin dA × (Fin (k + 1) → Fin dB)) ℂ) :
+    Matrix (Fin dA × Fin dB) (Fin dA × Fin dB) ℂ :=
+  fun p q => ∑ r : Fin k → Fin dB, σ (p.1, Fin.snoc r p.2) (q.1, Fin.snoc r q.2)
+
+theorem reduceLast_posSemidef {k : ℕ} (σ : Matrix (Fin dA × (Fin (k + 1) → Fin dB)) (Fin dA × (Fin (k + 1) → Fin dB)) ℂ)
+    (h : σ.PosSemidef) : (reduceLast σ).PosSemidef := by
+  have e : reduceLast σ = ∑ r : Fin k → Fin dB,
+      σ.submatrix (fun p : Fin dA × Fin dB => (p.1, (Fin.snoc r p.2 : Fin (k + 1) → Fin dB)))
+        (fun p : Fin dA × Fin dB => (p.1, (Fin.snoc r p.2 : Fin (k + 1) → Fin dB))) := by
+    ext p q
+    simp only [reduceLast, Matrix.sum_apply, Matrix.submatrix_apply]
+  rw [e]
+  exact posSemidef_sum _ fun r _ => h.submatrix _
+
+theorem isSymExt_posSemidef {k : ℕ} (ρ : Matrix (Fin dA × Fin dB) (Fin dA × Fin dB) ℂ)
+    (σ : Matrix (Fin dA × (Fin (k + 1) → Fin dB)) (Fin dA × (Fin (k + 1) → Fin dB)) ℂ) (h : IsSymExt k ρ σ) :
+    ρ.PosSemidef := by
+  have : ρ = reduceLast σ := by ext p q; exact h.2.2 p q
+  rw [this]; exact reduceLast_posSemidef σ h.1
+
+end ext
 
 /-! ### star-shaped sets and boundary lengths -/
 
